@@ -30,7 +30,7 @@ __BEGIN_DECLS
             /* Remove sign bit from native-level width */                      \
             (val) = -(val);                                                    \
             /* Add sign bit to varint-level width. (toggle == add) */          \
-            (val) ^= (1 << varintSignBitOffset_(externalVarintWidth));         \
+            (val) ^= (1ULL << varintSignBitOffset_(externalVarintWidth));      \
         }                                                                      \
     } while (0)
 
@@ -42,7 +42,7 @@ __BEGIN_DECLS
         /* If topmost bit in varint is set, convert to signed integer. */      \
         if (((result) >> varintSignBitOffset_(externalVarintWidth)) & 0x01) {  \
             /* Remove sign bit from varint-level width. (toggle == remove) */  \
-            (result) ^= (1 << varintSignBitOffset_(externalVarintWidth));      \
+            (result) ^= (1ULL << varintSignBitOffset_(externalVarintWidth));   \
             /* Restore sign bit to native-level width. */                      \
             (result) = -(result);                                              \
         }                                                                      \
